@@ -105,6 +105,16 @@ func (w *World) buildStake(v *View, cp CurParams) (*TxSpec, string) {
 			amt = cp.Min + w.R.Int63n(bal/2-cp.Min+1)
 		}
 	}
+	if w.R.Chance(14) {
+		// a stake from which a slash of a usual fraction lands exactly on the minimum (or one unit either side)
+		f := []int64{500000, 100000, 10000, 333333, 50000}[w.R.Intn(5)] // burn per unit of power: fraction * 10^6
+		for p := cp.Min / 1000000; p < cp.Min/1000000+400 && p > 0; p++ {
+			if s := cp.Min + p*f; s/1000000 == p {
+				amt = s + w.R.PickI64(0, 0, 0, -1, 1)
+				break
+			}
+		}
+	}
 	if amt <= 0 {
 		amt = 1
 	}
